@@ -19,3 +19,4 @@ Definition crossing_odd_cyclic := Lemmas3.crossing_odd_cyclic.
 Definition poly_prefilter_sound := Lemmas3.poly_prefilter_sound.
 Definition circle_classify_sound := Lemmas3.circle_classify_sound.
 Definition range_classify_sound := Lemmas3.range_classify_sound.
+Definition rect_polygon_agree_axis := Lemmas3.rect_polygon_agree_axis.
